@@ -115,7 +115,30 @@ def _case(rng: Rng, big=False, ufpca_only=False):
     for c in comps:
         if rng.random() < 0.25:
             c["layout"] = rng.choice(["F", "strided"])
-    return dict(kind="fit", comps=comps, exps=exps, n_components=nc, normalize=rng.random() < 0.3, rough=rough, sweep=sweep)
+    share = False
+    if P >= 2 and rng.random() < 0.3:
+        # components on the IDENTICAL grid (also literally the same DenseArgvals object) expanded in DIFFERENT bases
+        # of EQUAL size: nothing but the basis functions themselves tells the Gram matrices apart
+        share = True
+        size = rng.choice([4, 5, 6])
+        m = max(len(comps[0]["t"]), size + 3)
+        base = _component(rng, N, m, rough)
+        kinds = [dict(method="PSplines", n_segments=size - 2, degree=2), dict(method="PSplines", n_segments=size - 3, degree=3),
+                 dict(method="UFPCA", n_components=size), dict(method="PSplines", n_segments=size - 1, degree=1)]
+        rng.shuffle(kinds)
+        for q in range(P):
+            if q > 0:
+                cq = _component(rng, N, m, rough)
+                cq["t"] = list(base["t"])
+                comps[q] = cq
+            else:
+                comps[q] = base
+            exps[q] = kinds[q]
+            comps[q]["share_argvals"] = rng.random() < 0.5
+        M = sum(_size(e) for e in exps)
+        if isinstance(nc, int):
+            nc = min(nc, M)
+    return dict(kind="fit", comps=comps, exps=exps, n_components=nc, normalize=rng.random() < 0.3, rough=rough, sweep=sweep, share=share)
 
 
 def _bd_case(rng: Rng):
@@ -178,6 +201,7 @@ def _mfd(comps, order):
     from FDApy.representation.values import DenseValues
 
     out = []
+    shared = {}
     for p in order:
         c = comps[p]
         t = np.array(fl([F(x) for x in c["t"]]))
@@ -189,7 +213,10 @@ def _mfd(comps, order):
             big = np.zeros((X.shape[0], 2 * X.shape[1]))
             big[:, ::2] = X
             X = big[:, ::2]
-        out.append(DenseFunctionalData(DenseArgvals({"input_dim_0": t}), DenseValues(X)))
+        arg = DenseArgvals({"input_dim_0": t})
+        if c.get("share_argvals"):
+            arg = shared.setdefault(tuple(c["t"]), arg)  # literally the same DenseArgvals object for equal grids
+        out.append(DenseFunctionalData(arg, DenseValues(X)))
     return MultivariateFunctionalData(out)
 
 
@@ -235,7 +262,7 @@ class _Capture:
         return False
 
 
-def _fit(case, order, est=None):
+def _fit(case, order, est=None, typed=False):
     """Fit on the components in the given order; returns a dict of observables (floats)."""
     from FDApy.preprocessing.dim_reduction.mfpca import MFPCA
 
@@ -246,7 +273,11 @@ def _fit(case, order, est=None):
     out = dict(order=list(order))
     with _Capture() as cap:
         if est is None:
-            est = MFPCA(n_components=case["n_components"], univariate_expansions=exps, method="covariance", normalize=case["normalize"])
+            nc, nrm = case["n_components"], case["normalize"]
+            if typed:  # the same option VALUES in other-but-equivalent types
+                nc = np.float64(nc) if isinstance(nc, float) else nc  # NumPy integers are rejected by _select_number_eigencomponents
+                nrm = np.bool_(nrm) if len(order) % 2 else int(nrm)
+            est = MFPCA(n_components=nc, univariate_expansions=exps, method="covariance", normalize=nrm)
         with warnings.catch_warnings():
             warnings.simplefilter("ignore")
             with np.errstate(all="ignore"):
@@ -274,7 +305,7 @@ def _fit(case, order, est=None):
     basis = est._basis_univariate
     out["sizes"] = [int(b.coefficients.shape[1]) for b in basis]
     out["phi"] = [np.asarray(b.basis.values).tolist() for b in basis]
-    out["B"] = [np.asarray(b.basis._inner_product_matrix).tolist() for b in basis]
+    out["B"] = [np.asarray(b.basis._inner_product_matrix).tolist() if getattr(b.basis, "_inner_product_matrix", None) is not None else None for b in basis]
     out["eigenvalues"] = np.asarray(est.eigenvalues).tolist()
     out["coef"] = [np.asarray(e.coefficients).tolist() for e in est.eigenfunctions.data]  # K × s_p each
     with np.errstate(all="ignore"):
@@ -369,6 +400,10 @@ def run_impl(case):
             out["refit_other_diff"] = [k for k in ("eigenvalues", "coef", "psi", "pace", "rec", "mean", "xi") if "error" in o3 or not _same(fits[0][k], o3[k])]
             keys = ("eigenvalues", "coef", "psi", "pace", "rec", "mean", "xi")
             out["refit_other"] = bool("error" not in o3 and all(_same(fits[0][k], o3[k]) for k in keys))
+    # option values of equivalent types (np.bool_ / 0-1 int for booleans, np.float64 for fractions): same results
+    if "error" not in fits[0]:
+        ot, _ = _fit(case, tuple(range(P)), typed=True)
+        out["typed_diff"] = [k for k in ("eigenvalues", "coef", "psi", "pace", "rec", "mean", "xi", "weights") if "error" in ot or not _same(fits[0][k], ot[k])]
     # read-only-looking calls must not write state: fit(train) -> snapshot -> transform(OTHER data) /
     # transform(None) / inverse_transform -> snapshot again; reconstructions before / after must agree
     if "error" not in fits[0]:
@@ -700,9 +735,10 @@ def _compare_fit(case, f, outs, pos, stats):
         Gq = _pm(outs[pos])
         pos += 1
         gs = _amax(Gq) + 1e-300
-        ds += _cmp_mat(f"Basis.inner_product (component {p})", f["B"][q], Gq, gs, 1e-9, 2e-12)
+        if f["B"][q] is not None:
+            ds += _cmp_mat(f"Basis.inner_product (component {p})", f["B"][q], Gq, gs, 1e-9, 2e-12)
         L = np.asarray(f["Ublocks"][q], dtype=float).T
-        stats["chol_residual"] = max(stats.get("chol_residual", 0.0), _amax(L @ L.T - np.asarray(f["B"][q])) / gs)
+        stats["chol_residual"] = max(stats.get("chol_residual", 0.0), _amax(L @ L.T - np.asarray([[float(x) for x in r] for r in Gq])) / gs)
         # contract of the captured factor, exact on the model side: block q of UᵀU (as assembled and multiplied by
         # the code) must be the Gram matrix of the basis of component p
         o_q = int(sum(f["sizes"][:q]))
@@ -954,6 +990,8 @@ def oracle(case, impl):
         bad("inputs_unchanged", "fit changed the user's univariate_expansions dictionaries", causes=["expansions_popped"])
     if not impl.get("refit_same", True):
         bad("refit_same", f"second fit on the same estimator differs from the first (univariate sizes now {impl.get('refit_sizes')}, before {f0['sizes']})", causes=["expansions_popped"] if not f0["exps_unchanged"] else [])
+    if impl.get("typed_diff"):
+        bad("option_types", f"normalize given as np.bool_ / 0-1 int (n_components as np.float64) changes {impl['typed_diff']} w.r.t. the plain Python values", causes=["option_value_type"])
     if impl.get("ro_changed"):
         bad("readonly_calls", "fitted state changed by a call that only reads the model: " + "; ".join(impl["ro_changed"]), "MFPCA.transform", causes=["state_written_by_transform"])
     if not impl.get("ro_rec_same", True):
@@ -983,8 +1021,10 @@ def oracle(case, impl):
         Mtot = xi.shape[1]
         Bd = np.zeros((Mtot, Mtot))
         o = 0
-        for Bq in f["B"]:
-            Bq = np.asarray(Bq, dtype=float)
+        for q, p in enumerate(f["order"]):
+            tq = np.array(fl([F(x) for x in case["comps"][p]["t"]]))
+            ph = np.asarray(f["phi"][q], dtype=float)
+            Bq = np.array([[np.trapz(ph[a] * ph[b], tq) for b in range(len(ph))] for a in range(len(ph))])
             Bd[o:o + len(Bq), o:o + len(Bq)] = Bq
             o += len(Bq)
         want = Bd @ np.atleast_2d(np.cov(xi.T))
@@ -1110,7 +1150,7 @@ def classify(case, impl):
         return tags + ["blocks:" + str(len(case["shapes"])), "square" if all(a == b for a, b in case["shapes"]) else "rectangular"]
     if case["kind"] == "irregular":
         return tags + (["error"] if "error" in impl else [])
-    tags += [f"P:{len(case['comps'])}", f"normalize:{case['normalize']}", "scale_sweep" if case.get("sweep") else "unit_scale", "rough_mean" if case["rough"] else "smooth_mean",
+    tags += [f"P:{len(case['comps'])}", f"normalize:{case['normalize']}", "shared_grid_equal_sizes" if case.get("share") else "own_grids", "scale_sweep" if case.get("sweep") else "unit_scale", "rough_mean" if case["rough"] else "smooth_mean",
              "n_components:" + ("fraction" if isinstance(case["n_components"], float) else "int")]
     tags += sorted({"exp:" + e["method"] for e in case["exps"]})
     if len({len(c["t"]) for c in case["comps"]}) > 1:
